@@ -9,4 +9,9 @@ require (
 
 require github.com/apparentlymart/go-textseg/v15 v15.0.0
 
+require (
+	github.com/vmihailenco/msgpack/v5 v5.3.5 // indirect
+	github.com/vmihailenco/tagparser/v2 v2.0.0 // indirect
+)
+
 replace github.com/zclconf/go-cty => /repo
